@@ -60,6 +60,10 @@ def units(tier):
     add(["S2", "R1", "R1"], 0, cancel=1, behind_shield=True)
     add(["S2", "R2"], "sym", cancel=1, behind_shield=True)
     add(["S1", "S1", "R2"], 0, cancel=0, behind_shield=True)
+    # several tasks receiving through the same stream object (second use of the object by another task)
+    add(["S2", "R1", "R1"], 0, cancel=2, share_rx=True)
+    add(["S2", "R1", "R1"], 0, cancel=1, share_rx=True)
+    add(["S2", "R2", "R1"], 1, cancel=2, share_rx=True)
     if not quick:
         # every 3-party combination with at least one sender and one receiver, each party cancelled in turn
         import itertools as _it
